@@ -12,6 +12,10 @@ E = "clematis/adapters/embeddings.py"
 ES = "clematis/engine/util/embed_store.py"
 Q = "clematis/engine/stages/t2/quality_ops.py"
 CASES = [
+    ("gel-meta-template-deepcopied", "twin", "clematis/engine/snapshot.py", [("SCHEMA_VERSION = \"v1\"  # snapshots written going forward should include this\n", "SCHEMA_VERSION = \"v1\"  # snapshots written going forward should include this\n_EMPTY_META_TPL = {\"schema\": \"v1.1\", \"merges\": [], \"splits\": [], \"promotions\": [], \"concept_nodes_count\": 0, \"edges_count\": 0}\n"),
+      ("    _set_state_field(state, \"graph\", {\"nodes\": {}, \"edges\": {}, \"meta\": dict(empty_meta)})\n", "    import copy as _cp\n    _set_state_field(state, \"graph\", {\"nodes\": {}, \"edges\": {}, \"meta\": _cp.deepcopy(_EMPTY_META_TPL)})\n")], None, None),
+    ("gel-meta-template-shallow", "mutant", "clematis/engine/snapshot.py", [("SCHEMA_VERSION = \"v1\"  # snapshots written going forward should include this\n", "SCHEMA_VERSION = \"v1\"  # snapshots written going forward should include this\n_EMPTY_META_TPL = {\"schema\": \"v1.1\", \"merges\": [], \"splits\": [], \"promotions\": [], \"concept_nodes_count\": 0, \"edges_count\": 0}\n"),
+      ("    _set_state_field(state, \"graph\", {\"nodes\": {}, \"edges\": {}, \"meta\": dict(empty_meta)})\n", "    _set_state_field(state, \"graph\", {\"nodes\": {}, \"edges\": {}, \"meta\": dict(_EMPTY_META_TPL)})\n")], None, "C01.HIST"),
     ("match-keywords-default-accumulator", "mutant", T1, [("def _match_keywords(text: str, labels: List[Tuple[str, str]]) -> Dict[str, float]:\n", "def _match_keywords(text: str, labels: List[Tuple[str, str]], seeds: Dict[str, float] = {}) -> Dict[str, float]:\n"), ("    t = text.lower()\n    seeds: Dict[str, float] = {}\n", "    t = text.lower()\n")], None, "C01.HIST"),
     ("match-keywords-default-none", "twin", T1, [("def _match_keywords(text: str, labels: List[Tuple[str, str]]) -> Dict[str, float]:\n", "def _match_keywords(text: str, labels: List[Tuple[str, str]], seeds: Optional[Dict[str, float]] = None) -> Dict[str, float]:\n"), ("    t = text.lower()\n    seeds: Dict[str, float] = {}\n", "    t = text.lower()\n    seeds = {} if seeds is None else seeds\n")], None, None),
     ("tick-prunes-by-key-set-rebuild", "mutant", "clematis/engine/gel.py", "    for key in to_delete:\n        edges.pop(key, None)\n", "    if to_delete:\n        edges = {key: edges[key] for key in edges.keys() - to_delete}\n        gstore[\"edges\"] = edges\n", "C01.ORDER"),
